@@ -13,6 +13,7 @@ import asyncio
 import base64
 import itertools
 import random
+import re
 
 from .common import wire, backends, imapresp
 from .common.model import Model, nats
@@ -270,6 +271,25 @@ async def dump_all(srv):
     return tuple(out)
 
 
+async def dump_users(srv):
+    """[sorted (name, bytes, active)] per user through fresh connections"""
+    out = []
+    for u, p in USERS:
+        c = wire.Client(srv)
+        await c.start()
+        await c.send(b'AUTHENTICATE "PLAIN" "' + b64plain('', u, p) + b'"\r\n')
+        raw = await c.send(b'LISTSCRIPTS\r\n')
+        items = []
+        for r in imapresp.parse(raw)[:-1]:
+            g = imapresp.parse(await c.send(b'GETSCRIPT ' + qs(r[0].val) + b'\r\n'))
+            body = g[0][0].val if len(g) >= 2 and len(g[0]) == 1 and isinstance(g[0][0], imapresp.Tok) else None
+            items.append((r[0].val, body, len(r) > 1 and imapresp.atom(r[1]) == b'ACTIVE'))
+        await c.send(b'LOGOUT\r\n')
+        await c.finish()
+        out.append(sorted(items))
+    return out
+
+
 async def run_case(part, m, conns, case_key):
     """conns: list of connections, each a list of (wire, token, refop); run sequentially conn after conn on one server"""
     srv, config, backend = await new_server()
@@ -305,15 +325,22 @@ async def run_case(part, m, conns, case_key):
                 impl = 'NO:'
             if tok == 'starttls' and impl.startswith('NO'):
                 impl = 'NO:Bad command.'
+            expect = ref.step(op)
+            if not ref_matches(expect, got):
+                part.violation('monitor', f'C19: connection {ci} command {w[:60]!r}: answered {got[:120]}, the reference map says {expect}', case,
+                               signature='sieve-ref')
+            if tok == 'cap' and got == 'CAPS':
+                # the OWNER capability names the identity the connection acts as
+                owner = re.search(rb'"OWNER" "([^"]*)"', raw)
+                want = USERS[ref.user][0].encode() if ref.user is not None else None
+                if (owner.group(1) if owner else None) != want:
+                    part.violation('monitor', f'C19: connection {ci}: CAPABILITY names OWNER {owner.group(1) if owner else None!r}, the connection authenticated as {want!r}', case,
+                                   signature='sieve-owner')
             if impl != mod:
                 part.violation('correspondence', f'C19: connection {ci} command {w[:60]!r} ({tok[:40]}): implementation {impl[:120]}, model {mod[:120]}', case,
                                signature='sieve-reply')
                 await c.eof()
                 return
-            expect = ref.step(op)
-            if not ref_matches(expect, got):
-                part.violation('monitor', f'C19: connection {ci} command {w[:60]!r}: answered {got[:120]}, the reference map says {expect}', case,
-                               signature='sieve-ref')
             if before is not None:
                 after = await dump_all(srv)
                 if not got.startswith('NO'):
@@ -323,6 +350,13 @@ async def run_case(part, m, conns, case_key):
             if op[0] in ('rename', 'delete', 'setactive') and got == 'OK':
                 nontrivial = True
         await c.eof()
+    # every user's store, as fresh connections see it, is the reference map
+    final = await dump_users(srv)
+    for ui, (u, _) in enumerate(USERS):
+        d, act = ref.store[ui]
+        want = sorted((n.encode('utf-8'), bytes(b), n == act[0]) for n, b in d.items())
+        if final[ui] != want:
+            part.violation('monitor', f'C19: at the end user {u} holds {final[ui]!r}, the reference map says {want!r}', case, signature='sieve-final')
     part.case(key=case_key, nontrivial=nontrivial, sample=dict(log=log[:8]))
     part.trace()
 
@@ -363,8 +397,23 @@ def auth_worker(job):
     try:
         for k in range(n):
             cmds = []
-            for _ in range(r.randint(1, 6)):
-                cmds.append(make_cmd(r.choice(['auth', 'auth-bad', 'auth-bad', 'unauth', 'list', 'put', 'get', 'cap', 'starttls']), r, compiles))
+            if k % 2 == 0:
+                for _ in range(r.randint(1, 6)):
+                    cmds.append(make_cmd(r.choice(['auth', 'auth-bad', 'auth-bad', 'unauth', 'list', 'put', 'get', 'cap', 'starttls']), r, compiles))
+            else:
+                # one connection changing hands: authenticate, work, UNAUTHENTICATE, (failed attempts,) authenticate again — mostly as someone else
+                first = r.randrange(len(USERS))
+                second = first if r.random() < 0.25 else (first + 1) % len(USERS)
+                for ui in (first, second):
+                    u, p = USERS[ui]
+                    cmds.append((b'AUTHENTICATE "PLAIN" "' + b64plain('', u, p) + b'"\r\n', f'auth:{ui}:1', ('auth', ui)))
+                    for _ in range(r.randint(1, 4)):
+                        cmds.append(make_cmd(r.choice(['list', 'put', 'put', 'get', 'cap', 'setactive', 'delete']), r, compiles))
+                    if ui == first or r.random() < 0.3:
+                        cmds.append(make_cmd('unauth', r, compiles))
+                        for _ in range(r.randint(0, 2)):
+                            cmds.append(make_cmd('auth-bad', r, compiles))
+            cmds.append(make_cmd('cap', r, compiles))
             cmds.append(make_cmd('list', r, compiles))
             with guarded(part, 'C09 sieve auth', dict(scenario='sieve-auth', seed=seed, k=k)):
                 asyncio.run(run_case(part, m, [[make_cmd('auth', random.Random(1), compiles), (b'PUTSCRIPT "mark0" {5+}\r\nkeep;\r\n', 'put:109,97,114,107,48:107,101,101,112,59', ('put', 'mark0', b'keep;'))],
